@@ -263,10 +263,14 @@ def run_model(cases, shards=NPROC, timeout=1800):
     # the extracted model recurses deeply on long inputs
     cmd = ["bash", "-c", "ulimit -s unlimited 2>/dev/null; exec '%s'" % MODELRUN]
     outs = _run_lines(cmd, lines, shards, timeout)
-    if os.environ.get("VERIF_TIER") == "thorough" and len(XCHECK) < 40:
+    thorough = os.environ.get("VERIF_TIER") == "thorough"
+    if len(XCHECK) < (40 if thorough else 6):
+        # a sample of the cases is evaluated again inside Coq at the end of the run (xcheck_extraction): 8 per call
+        # in the thorough tier, 3 small ones per call in the quick tier
         small = [(a, b) for a, b in zip(lines, outs) if len(a) < 4000 and len(b) < 2000]
-        step = max(1, len(small) // 8)
-        XCHECK.extend(small[::step][:8])
+        per = 8 if thorough else 3
+        step = max(1, len(small) // per)
+        XCHECK.extend(small[::step][:per])
     return [parse_result(l) for l in outs]
 
 
